@@ -336,6 +336,27 @@ def r4(ctx: Ctx):
     ctx.fail(rule, it, 'TreeFn._iterate: rebatched_args(inputs, fn_batch_size, _num_inputs) / (outputs, batch_size, _num_outputs)',
              f'the operator re-batches with {got}: input and output batch sizes'
              ' or column counts are crossed', node=it.node)
+  # each re-batch is applied exactly when its own batch size is set
+  from mlmverif.core import parent_map
+  pm_ = parent_map(it.node)
+  for c in calls:
+    bs_ = unparse(kwarg(c, 'batch_size'))
+    q_ = c
+    guard = None
+    while q_ is not it.node and q_ is not None:
+      par_ = pm_.get(q_)
+      if isinstance(par_, ast.If) and any(q_ is b_ or q_ in ast.walk(b_) for b_ in par_.body):
+        guard = par_
+        break
+      q_ = par_
+    if guard is None or unparse(guard.test) == bs_ or unparse(guard.test) in (f'{bs_} > 0', f'{bs_} != 0', f'bool({bs_})'):
+      ctx.ok(rule, it, f're-batch with {bs_} applied whenever {bs_} is set', c)
+    else:
+      ctx.fail(rule, it, f'TreeFn._iterate: re-batch applied whenever {bs_} is set',
+               f'the re-batch to `{bs_}` only happens under `{unparse(guard.test)}`:'
+               ' for some settings the stream leaves the operator in the'
+               ' batches the function happened to return (wrong sizes, empty'
+               ' batches) although a batch size was requested', node=guard)
   ra = repo.func(IU, 'rebatched_args')
   first = [s for s in ra.node.body if isinstance(s, ast.If)]
   if first and unparse(first[0].test) == 'not batch_size' and 'yield from tuples' in unparse(first[0]):
@@ -473,6 +494,10 @@ from mlmverif.selfcheck import B, OK  # noqa: E402
 
 _F = 'utils/iter_utils.py'
 VARIANTS = [
+    B('output-rebatch-skipped-when-sizes-equal', 'chainables/tree_fns.py',
+      '    if self.batch_size:\n      fn_outputs = iter_utils.rebatched_args(',
+      '    if self.batch_size and self.batch_size != self.fn_batch_size:\n      fn_outputs = iter_utils.rebatched_args(',
+      'R-C19-4'),
     B('revert-pad-axis0-only', _F,
       '    pad_width = [(0, batch_size - data.shape[0])] + [(0, 0)] * (data.ndim - 1)\n    return np.pad(data, pad_width, constant_values=pad)',
       '    return np.pad(data, (0, batch_size - data.shape[0]), constant_values=pad)', 'R-C19-6'),
